@@ -83,8 +83,8 @@ ASSUMPTIONS = [
 OFF = 2
 FORMAT_INVARIANTS = ("fields12", "strand-symbol", "block-count", "first-start-0", "starts-ascending", "span", "coords")
 TX_NAMES = ["transcript_symbol", "lit:my transcript 7", "guid", "transcript_id", "name", "protein_id", "feature_name", "id",
-            "product", "lit:tx-42"]
-FT_NAMES = ["feature_name", "lit:promoter|a b", "guid", "feature_id", "name", "transcript_symbol", "id", "lit:f.9"]
+            "product", "lit:tx-42", "lit:" + "long-transcript-name-" * 40]
+FT_NAMES = ["feature_name", "lit:promoter|a b", "guid", "feature_id", "name", "transcript_symbol", "id", "lit:f.9", "lit:" + "Lf" * 333]
 
 
 def selftest():
@@ -200,13 +200,16 @@ def cases(spec, ctx):
         if r >= nall and r % 25 == 7:
             # scale: 17..70 blocks, chromosomes of up to 200 kb
             length = rng.choice([3000, 3000, 200000])
-            nb = rng.randint(17, 70)
+            nb = rng.choice([rng.randint(17, 70), rng.randint(64, 140), rng.randint(129, 220)])
         lo = rng.randint(0, length - 2 * nb - 1)
         hi = rng.randint(lo + 2 * nb, min(length, lo + max(2 * nb, rng.choice([12, 40, 300, 3000]))))
         cuts = sorted(rng.sample(range(lo, hi + 1), 2 * nb))
         if nb > 1 and rng.random() < 0.2:  # adjacent exons
             j = rng.randrange(1, nb)
             cuts[2 * j] = cuts[2 * j - 1]
+        if nb > 16:                       # many blocks: a few more abutting pairs
+            for j in rng.sample(range(1, nb), 3):
+                cuts[2 * j] = cuts[2 * j - 1]
         blocks = [[cuts[2 * j], cuts[2 * j + 1]] for j in range(nb)]
         cls = rng.choice(["tx", "tx", "feat"])
         strand = rng.choice("+-") if cls == "tx" or rng.random() < 0.85 else "."
@@ -324,7 +327,12 @@ def _one_parent(case, ctx, blocks, window, pidx):
             w_name = str(case["ids"]["transcript_symbol" if cls == "tx" else "feature_name"])
             w_score, w_rgb = 0, (0, 0, 0)
         else:
-            bed, exc = ctx.call(obj.to_bed12, score=case["score"], rgb=RGB(*rgb), name=name_arg, chromosome_relative_coordinates=chrom_mode)
+            # (every third export hands the flag over as the equal int 0 / 1; on objects with sequence every other export is preceded
+            # by reading the spliced sequence of the SAME object - an export is a function of the object, not of what was asked before)
+            flag = int(chrom_mode) if (pidx + case["score"]) % 3 == 0 else chrom_mode
+            if (pidx + case["score"]) % 2 == 0:
+                ctx.call(lambda: str(obj.get_spliced_sequence()))
+            bed, exc = ctx.call(obj.to_bed12, score=case["score"], rgb=RGB(*rgb), name=name_arg, chromosome_relative_coordinates=flag)
             w_name, w_score, w_rgb = want_name, case["score"], rgb
         text = None
         if exc is None:
